@@ -47,6 +47,9 @@ AltOf(t) == CASE t = "{a,ab}"   -> {<<"a">>, <<"a", "b">>}
               [] t = "{b,c}"    -> {<<"b">>, <<"c">>}
               [] t = "{a,x}"    -> {<<"a">>, <<"x">>}
               [] t = "{ab,d/b}" -> {<<"a", "b">>, <<"d", "/", "b">>}
+\*   "\\*"     a backslash makes the following metacharacter an ordinary character (both matchers)
+EscToks == {"\\*", "\\?"}
+EscOf(t) == IF t = "\\*" THEN "*" ELSE "?"
 ClsToks == {"[ab]", "[a-c]", "[!d]", "[!a-c]"}
 ClsOf(t) == CASE t = "[ab]"   -> [set |-> {"a", "b"}, neg |-> FALSE]
               [] t = "[a-c]"  -> [set |-> {"a", "b", "c"}, neg |-> FALSE]
@@ -57,6 +60,8 @@ GlobMatch(p, str) ==
     IF p = <<>> THEN str = <<>>
     ELSE IF Head(p) = "*"
          THEN \E n \in 0 .. Len(str) : GlobMatch(Tail(p), SubSeq(str, n + 1, Len(str)))
+    ELSE IF Head(p) \in EscToks
+         THEN str # <<>> /\ Head(str) = EscOf(Head(p)) /\ GlobMatch(Tail(p), Tail(str))
     ELSE IF Head(p) \in AltToks
          THEN \E a \in AltOf(Head(p)) : GlobMatch(a \o Tail(p), str)
     ELSE IF Head(p) \in ClsToks
